@@ -5,6 +5,7 @@ package harness
 import (
 	"bytes"
 	"fmt"
+	"reflect"
 	"strconv"
 	"testing"
 
@@ -399,6 +400,7 @@ func TestC12(t *testing.T) {
 		})
 	}
 	c12History(t)
+	t.Run("late-registration", c12LateRegistration)
 }
 
 // ---- one receiver, several decodes: the type chosen must depend on the key on the wire only ----------------
@@ -466,6 +468,91 @@ func stepKeys(s []C12Step) string {
 }
 
 func init() { registerReplay("c12hist", oracleC12Hist) }
+
+// c12LateRegistration: after the library has been used (every earlier subtest of this process decoded through
+// every table), an application registers a message type of its own under a fresh key; a message carrying that
+// key must now decode into the application's type, stream-decode correctly, and the pinned keys must be unaffected.
+// Runs last: the registration cannot be undone.
+func c12LateRegistration(t *testing.T) {
+	for ti, tb := range TableList {
+		if !MyShare(ti) {
+			continue
+		}
+		reg := lateRegister[tb.QName]
+		if reg == nil {
+			Col.BrokenHarness("no late-registration hook for table " + tb.QName)
+			continue
+		}
+		holder := holderOf(tb)
+		ts := Types[holder]
+		di := ts.DynIndex()
+		// make sure the table has been consulted before (a decode with a pinned key)
+		base := Skeleton(holder, 0)
+		if _, _, err, pan := LibDecode(holder, Render(base, nil).Bytes); err != nil || pan != nil {
+			Col.BrokenHarness("skeleton of " + holder + " does not decode")
+			continue
+		}
+		key := reg()
+		Col.Case(Hash64([]byte(tb.QName), []byte("late")), true, "late-registration")
+		// wire: the holder's skeleton with the late key, the application part's 5 bytes in place of the pinned part
+		v := Skeleton(holder, 0)
+		setKey(v, ts, ts.FieldIndex(ts.Fields[di].Disc), key)
+		v.F[di].O = nil
+		r := Render(v, &RenderOpts{Spans: true})
+		// Render of an absent part in a skip frame renders nothing; in a materialise holder it flags MustError: build bytes by hand
+		full := Render(Skeleton(holder, 0), &RenderOpts{Spans: true})
+		var bodyOff, bodyLen int = -1, 0
+		for _, sp := range full.Spans {
+			if sp.Kind == "body" && sp.Path == "$."+ts.Fields[di].Go {
+				bodyOff, bodyLen = sp.Off, sp.Len
+			}
+		}
+		_ = r
+		if bodyOff < 0 {
+			Col.BrokenHarness("cannot locate the part of " + holder)
+			continue
+		}
+		kv := Skeleton(holder, 0)
+		setKey(kv, ts, ts.FieldIndex(ts.Fields[di].Disc), key)
+		kb := Render(kv, nil).Bytes // same layout as full, key bytes replaced (computed fields are not verified by decoders)
+		part := []byte{0x5A, 1, 2, 3, 4}
+		wire := append(append(append([]byte{}, kb[:bodyOff]...), part...), kb[bodyOff+bodyLen:]...)
+		stream := append(append([]byte{}, wire...), Render(base, nil).Bytes...)
+		obj := regByName[holder].New()
+		buf := bytes.NewBuffer(stream)
+		err, pan, _ := safely(func() error { return DecodeAny(obj, buf) })
+		sig := "C12/" + tb.QName
+		fail := func(kind, format string, a ...any) {
+			f := failf(sig+"/"+kind, format, a...)
+			Col.Violation("C12", "c12late", "late/"+tb.QName, f.Signature, f.Msg, "enumeration", map[string]any{"table": tb.QName, "key": key, "wire": hexClip(wire)})
+			t.Errorf("%s: %s", f.Signature, f.Msg)
+		}
+		if pan != nil {
+			fail("late-registration-panic", "key %q registered by the application after start-up: Decode panicked: %v", key, pan)
+			continue
+		}
+		if err != nil {
+			fail("late-registration-ignored", "key %q was registered through %s after the table had already been used, yet Decode rejects it: %v", key, tb.Name, err)
+			continue
+		}
+		got := reflect.ValueOf(obj).Elem().FieldByName(ts.Fields[di].Go)
+		ap, ok := got.Interface().(*AppPart)
+		if !ok || ap.Tag != 0x5A {
+			fail("late-registration-wrong-type", "key %q: decoder built %T instead of the application's registered type", key, got.Interface())
+			continue
+		}
+		// the next message in the stream (pinned key) must still decode to its pinned type
+		obj2 := regByName[holder].New()
+		if e2, p2, _ := safely(func() error { return DecodeAny(obj2, buf) }); e2 != nil || p2 != nil {
+			fail("late-registration-breaks-stream", "after a message with the application's key, the following pinned message no longer decodes: err=%v panic=%v", e2, p2)
+			continue
+		}
+		if g2, cerr := FromStruct(obj2, holder); cerr != nil || Diff(g2, Computed(base)) != "" {
+			fail("late-registration-breaks-pinned", "after the late registration a pinned key decodes differently: %v %s", cerr, Diff(g2, Computed(base)))
+		}
+	}
+	Col.MarkExhaustive("late registration of an application-defined type in each of the 18 tables after the table was used")
+}
 
 func c12History(t *testing.T) {
 	for ti, tb := range TableList {
